@@ -1,15 +1,12 @@
 /-
   C04 — Signal AND: the composite is true exactly when all operands are.
   Theorems about M2 (Model/Composite.lean, the model of `__and__` as REPAIRED: the AndSignals object keeps its
-  operands), for every history of building composites (nested, shared operands), dropping references,
-  triggering, and every interleaving of those operations at the granularity of one Signal operation.
-
-  PARTIAL.  Proved: the part of the property the pinned tree violated — an operand that only the expression
-  references (the composite in `(a | b) & c`, a Till) stays alive, and so able to trigger, as long as the AND
-  composite is alive and untriggered — for every reachable state.  The countdown (`c` true iff both operands
-  are true at quiescence) is checked on the real code by the monitor and by trace acceptance, not yet a theorem.
+  operands), for every history of building composites (nested, shared operands, `a & a`), dropping references,
+  triggering, the reference-count collector, and every interleaving of those operations at the granularity of
+  one Signal operation; the countdown step (decrement under its own lock, go() at zero) is one model step, and is
+  additionally explored on the real code at the granularity of every access to `remaining` (fine-mode runs).
 -/
-import MoThreads.Proofs.CompLive
+import MoThreads.Proofs.CompAnd
 namespace MoThreads.Composite
 open MoThreads
 
@@ -51,5 +48,89 @@ theorem C04_operand_not_collectable {s : State} (h : sys.Reach s) (n : Nat) (hn 
       · exact andRef_of_job (i.F2 n hn).1 hal h1 rfl
       · exact andRef_of_todo h1 rfl rfl
     exact (C.noAnd n hn href).1 (by rw [hdeps]; exact hd)
+
+/-- The countdown never skips and never double-counts: the token of each operand is in at most one place (still to be
+registered, registered on the operand, or detached and queued), and `remaining` is exactly the number of operands
+whose token has not been consumed (an operand that is true and whose token is gone has been counted). -/
+theorem C04_countdown_is_exact {s : State} (h : sys.Reach s) (n x y : Nat) (hn : n < s.nAnd) (hxy : (s.ands n).deps0 = [x, y]) :
+    liveA s n 0 x ≤ 1 ∧ liveA s n 1 y ≤ 1 ∧ (s.ands n).remaining = wA s n 0 x + wA s n 1 y := by
+  have ha := (reach_all4 h).2.2.2
+  exact ⟨ha.TA n 0 x (by rw [hxy]; rfl), ha.TA n 1 y (by rw [hxy]; rfl), ha.W n x y hn hxy⟩
+
+/-- "Only when": at every moment, an AND composite that the program did not trigger directly is true only if every
+operand is true. -/
+theorem C04_true_only_if_all_operands {s : State} (h : sys.Reach s) (n : Nat) (hn : n < s.nAnd)
+    (hgo : (s.sigs (s.ands n).target).go = true) (hdir : (s.sigs (s.ands n).target).direct = false) :
+    ∀ d, d ∈ (s.ands n).deps0 → (s.sigs d).go = true := by
+  obtain ⟨hl, _, _, ha⟩ := reach_all4 h
+  exact ha.GA1 _ n (hl.F2 n hn).1 (hl.F2 n hn).2 hgo hdir
+
+/-- The equivalence, "exactly at the last trigger": at every quiescent point an AND composite that was not triggered
+directly is true exactly when all its operands are true — so it is false as long as one operand is false, and true
+once the `go()` that triggered the last operand has finished. -/
+theorem C04_and_iff {s : State} (h : sys.Reach s) (hq : Quiet s) (n : Nat) (hn : n < s.nAnd)
+    (hdir : (s.sigs (s.ands n).target).direct = false) :
+    (s.sigs (s.ands n).target).go = true ↔ ∀ d, d ∈ (s.ands n).deps0 → (s.sigs d).go = true := by
+  obtain ⟨hl, hh, hg, ha⟩ := reach_all4 h
+  constructor
+  · intro hgo; exact C04_true_only_if_all_operands h n hn hgo hdir
+  · intro hall
+    obtain ⟨x, y, hxy⟩ := ha.D2a n hn
+    have hx : (s.sigs x).go = true := hall x (by rw [hxy]; simp)
+    have hy : (s.sigs y).go = true := hall y (by rw [hxy]; simp)
+    have nocnt : ∀ b, cnt s b = 0 := fun b => cnt_zero.mpr (not_inTodos_of_quiet hq b)
+    have w0 : ∀ i d, (s.sigs d).go = true → wA s n i d = 0 := by
+      intro i d hgd
+      unfold wA liveA
+      rw [nocnt, nocnt, hh.A1 d hgd, hgd]; simp
+    have hr : (s.ands n).remaining = 0 := by rw [ha.W n x y hn hxy, w0 0 x hx, w0 1 y hy]
+    rcases ha.Z n hn hr with h1 | h1
+    · exact h1
+    · exact absurd h1 (not_inTodos_of_quiet hq _)
+
+/-- ... in terms of the two operands. -/
+theorem C04_and_iff_operands {s : State} (h : sys.Reach s) (hq : Quiet s) (n : Nat) (hn : n < s.nAnd)
+    (hdir : (s.sigs (s.ands n).target).direct = false) :
+    ∃ x y, (s.ands n).deps0 = [x, y] ∧ ((s.sigs (s.ands n).target).go = true ↔ ((s.sigs x).go = true ∧ (s.sigs y).go = true)) := by
+  obtain ⟨x, y, hxy⟩ := (reach_all4 h).2.2.2.D2a n hn
+  refine ⟨x, y, hxy, ?_⟩
+  rw [C04_and_iff h hq n hn hdir, hxy]
+  constructor
+  · intro hall; exact ⟨hall x (by simp), hall y (by simp)⟩
+  · rintro ⟨hx, hy⟩ d hd
+    simp only [List.mem_cons, List.mem_nil_iff, or_false] at hd
+    rcases hd with rfl | rfl
+    · exact hx
+    · exact hy
+
+/-! ### the hypotheses are satisfiable: `c = a & b`, then `a.go()`, then `b.go()` -/
+
+def demoA0 : State := newLeaf (newLeaf init)                                   -- a = 2, b = 3
+def demoA1 : Option State := call demoA0 0 (.mkAnd 2 3)
+def demoA2 : Option State := runSched (demoA1.getD init) [0, 0, 0, 0, 0]          -- andNew, three registrations, ret: c = 4
+def demoA3 : Option State := call (demoA2.getD init) 1 (.go 2)
+def demoA4 : Option State := runSched (demoA3.getD init) [1, 1]                   -- a.go(): flag, countdown step
+def demoA5 : Option State := call (demoA4.getD init) 1 (.go 3)
+def demoA6 : Option State := runSched (demoA5.getD init) [1, 1, 1, 1]             -- b.go(): flag, countdown step, c.go(), cleanup
+
+example : ∃ s, sys.Reach s ∧ s.nAnd = 1 ∧ (s.ands 0).target = 4 ∧ (s.ands 0).deps0 = [2, 3] ∧ (s.sigs 4).direct = false
+    ∧ (s.sigs 2).go = true ∧ (s.sigs 3).go = true ∧ (s.sigs 4).go = true ∧ (s.ands 0).remaining = 0
+    ∧ s.todo 0 = [] ∧ s.todo 1 = [] := by
+  have h1 := some_getD_of_isSome demoA1 init (by decide +kernel)
+  have h2 := some_getD_of_isSome demoA2 init (by decide +kernel)
+  have h3 := some_getD_of_isSome demoA3 init (by decide +kernel)
+  have h4 := some_getD_of_isSome demoA4 init (by decide +kernel)
+  have h5 := some_getD_of_isSome demoA5 init (by decide +kernel)
+  have h6 := some_getD_of_isSome demoA6 init (by decide +kernel)
+  refine ⟨demoA6.getD init, ?_, by decide +kernel, by decide +kernel, by decide +kernel, by decide +kernel, by decide +kernel, by decide +kernel,
+    by decide +kernel, by decide +kernel, by decide +kernel, by decide +kernel⟩
+  have r0 : sys.Reach demoA0 :=
+    Sys.Reach.env (Sys.Reach.env (Sys.Reach.init rfl) (Or.inr (Or.inl rfl))) (Or.inr (Or.inl rfl))
+  have r1 : sys.Reach (demoA1.getD init) := Sys.Reach.env r0 (Or.inl ⟨0, _, h1⟩)
+  have r2 : sys.Reach (demoA2.getD init) := reach_runSched _ r1 h2
+  have r3 : sys.Reach (demoA3.getD init) := Sys.Reach.env r2 (Or.inl ⟨1, _, h3⟩)
+  have r4 : sys.Reach (demoA4.getD init) := reach_runSched _ r3 h4
+  have r5 : sys.Reach (demoA5.getD init) := Sys.Reach.env r4 (Or.inl ⟨1, _, h5⟩)
+  exact reach_runSched _ r5 h6
 
 end MoThreads.Composite
